@@ -22,6 +22,7 @@ import re._constants as sre_c
 
 from ..consteval import fold_str
 from ..model import AnchorError, norm, walk_no_nested
+from ..util import call_attr
 
 EXPLANATION = __doc__
 PARSER = "openpectus.lang.model.parser"
@@ -138,7 +139,58 @@ def run(ctx) -> None:
     if scan:
         ctx.ok("R18a", "_parse_tag_operator_value takes the first operator of node.operators found in the argument")
     else:
-        raise AnchorError("_parse_tag_operator_value: first-match scan over node.operators not recognised")
+        # alternative algorithm: a positional scan - walk the argument, stop at the first character of a start set, take the
+        # two-character slice if it is an operator, else the character. Every operator must then *begin* with a start
+        # character and be at most as long as the slice.
+        from ..util import local_single_defs as _lsd
+        pdefs = _lsd(ptov)
+        pos = None
+        for lp in walk_no_nested(ptov.node):
+            if isinstance(lp, ast.For) and isinstance(lp.iter, ast.Call) and call_attr(lp.iter) == "enumerate" \
+                    and isinstance(lp.target, ast.Tuple) and len(lp.target.elts) == 2 and any(isinstance(x, ast.Break) for x in ast.walk(lp)):
+                ch = norm(lp.target.elts[1])
+                for t in ast.walk(lp):
+                    if isinstance(t, ast.Compare) and len(t.ops) == 1 and isinstance(t.ops[0], ast.In) and norm(t.left) == ch:
+                        pos = (lp, t.comparators[0])
+        if pos is None:
+            raise AnchorError("_parse_tag_operator_value: neither a first-match scan over node.operators nor a positional scan recognised")
+        lp, start_expr = pos
+        sdef = pdefs.get(start_expr.id) if isinstance(start_expr, ast.Name) else start_expr
+        slice_len = max([int(x.upper.right.value) for x in ast.walk(lp) if isinstance(x, ast.Slice) and isinstance(x.upper, ast.BinOp)
+                         and isinstance(x.upper.op, ast.Add) and isinstance(x.upper.right, ast.Constant)] or [1])
+        for c in [node] + node.all_subclasses():
+            ops = c.class_attrs.get("operators")
+            if c.module.is_test or not isinstance(ops, ast.List):
+                continue
+            vals = [e.value for e in ops.elts if isinstance(e, ast.Constant)]
+            # evaluate the start set for this operator table
+            if isinstance(sdef, ast.ListComp) and len(sdef.generators) == 1 and norm(sdef.generators[0].iter) == f"{npar}.operators" \
+                    and len(sdef.generators[0].ifs) == 1 and norm(sdef.elt) == norm(sdef.generators[0].target):
+                cond = sdef.generators[0].ifs[0]
+                v = norm(sdef.generators[0].target)
+                if isinstance(cond, ast.Compare) and norm(cond.left) == f"len({v})" and isinstance(cond.comparators[0], ast.Constant):
+                    k_ = cond.comparators[0].value
+                    opk = cond.ops[0]
+                    start = {o for o in vals if (isinstance(opk, ast.Eq) and len(o) == k_) or (isinstance(opk, ast.LtE) and len(o) <= k_)
+                             or (isinstance(opk, ast.Lt) and len(o) < k_)}
+                else:
+                    raise AnchorError("_parse_tag_operator_value: start set of the positional scan not understood")
+            elif isinstance(sdef, ast.Constant) and isinstance(sdef.value, str):
+                start = set(sdef.value)
+            elif isinstance(sdef, (ast.List, ast.Tuple, ast.Set)) and all(isinstance(e, ast.Constant) for e in sdef.elts):
+                start = {e.value for e in sdef.elts}
+            else:
+                raise AnchorError("_parse_tag_operator_value: start set of the positional scan not understood")
+            for o in vals:
+                inst = f"{c.name}: operator '{o}' is reachable by the positional scan"
+                if o[0] not in start:
+                    ctx.fail("R18a", ptov, lp, inst, f"the scan only stops at {sorted(start)} but '{o}' begins with '{o[0]}': a condition "
+                             f"written with '{o}' is decomposed at a later character into another operator (e.g. 'A {o} 3' -> tag "
+                             f"'A {o[0]}', operator '{o[1:]}')")
+                elif len(o) > slice_len:
+                    ctx.fail("R18a", ptov, lp, inst, f"the scan compares a slice of {slice_len} characters but '{o}' is longer")
+                else:
+                    ctx.ok("R18a", inst)
     # ---- R18b
     gram = prog.cls(f"{PARSER}:Grammar")
     full = fold_str(prog, gram, gram.class_attrs["full_line_re"])
